@@ -21,6 +21,8 @@ macro_rules! prop_mod {
 }
 
 prop_mod!(c18, "c18.rs");
+prop_mod!(c16, "c16.rs");
+prop_mod!(c04, "c04.rs");
 
 /// Minimal JSON value reader: enough for the flat cases the driver writes.
 #[derive(Debug, Clone)]
@@ -112,6 +114,11 @@ fn dispatch(name: &str, a: &Args) -> bool {
     "c18_uniq_inj" => c18::p_c18_uniq_inj(a.u8("d1"), a.u64("h1"), a.u8("d2"), a.u64("h2")),
     "c18_uniq_layer" => c18::p_c18_uniq_layer(a.u8("d"), a.u64("h")),
     "c18_uniq_guard" => c18::p_c18_uniq_guard(a.u8("d"), a.u64("h"), a.bool("ivoa")),
+    "c16_bsd" => c16::p_c16_bsd(a.f64("r")),
+    "c16_monotone" => c16::p_c16_table_monotone(a.u8("k")),
+    "c16_guard" => c16::p_c16_guard(a.f64("r")),
+    "c04_pair" => c04::p_c04_pair(a.u8("depth"), a.u64("a"), a.u64("c")),
+    "c04_guard" => c04::p_c04_guard(a.u8("depth"), a.u64("a"), a.bool("single"), a.u8("k")),
     _ => return false,
   }
   true
